@@ -196,6 +196,8 @@ func runC20(c *Ctx) {
 	checkCloseProtocol(c, "R20.3")
 	checkSampleWrite(c, "R20.4")
 	checkRecoveryRange(c, "R20.5")
+	c.Rule("R20.8", "E3", "a packet recovered from the cache takes the path of a received one", 2)
+	checkRecoveredPath(c, "R20.8")
 	checkContainer(c, "R20.6")
 	checkClockRates(c, "R20.7")
 }
@@ -1423,5 +1425,79 @@ func checkClockRates(c *Ctx, rule string) {
 	}
 	if n < 5 {
 		c.Bad(rule, "origin conversions found", 0, "only %d clock-rate uses found (6 confirmed by hand)", n)
+	}
+}
+
+// R20.8: the keyframe bookkeeping (savedKf, lastKf, the origin) and the flush
+// after every packet live in writeRTP.  A packet recovered from the
+// publisher's cache must go through it exactly like a packet that arrived:
+// fetch hands the packet it parsed to writeRTP on every path after a
+// successful parse, and so does Write with the packet it received.
+func checkRecoveredPath(c *Ctx, rule string) {
+	p := c.P
+	fe := p.Func("diskwriter", "", "fetch")
+	wr := p.Func("diskwriter", "diskTrack", "Write")
+	if fe == nil || wr == nil {
+		c.Unknown(rule, "anchors", 0, "diskwriter.fetch / diskTrack.Write not found")
+		return
+	}
+	for _, fs := range []*FuncSrc{fe, wr} {
+		info := fs.Pkg.TypesInfo
+		ff := p.Facts().Analyze(fs)
+		// the packet: the *rtp.Packet local that Unmarshal fills
+		var um *ast.CallExpr
+		var pkt types.Object
+		ast.Inspect(fs.Body(), func(n ast.Node) bool {
+			call, ok := n.(*ast.CallExpr)
+			if !ok {
+				return true
+			}
+			if f := calleeOf(&CallSite{Call: call, In: fs}); f != nil && f.Name() == "Unmarshal" && f.Pkg() != nil && strings.HasSuffix(f.Pkg().Path(), "pion/rtp") {
+				if id, ok := unparen(recvExpr(call)).(*ast.Ident); ok && um == nil {
+					um, pkt = call, info.ObjectOf(id)
+				}
+			}
+			return true
+		})
+		if um == nil || pkt == nil {
+			c.Bad(rule, "packet handed to writeRTP in "+fs.Name, fs.Pos(), "no rtp.Packet is parsed in "+fs.Name)
+			continue
+		}
+		isWrite := func(n ast.Node) bool {
+			hit := false
+			ast.Inspect(n, func(m ast.Node) bool {
+				if call, ok := m.(*ast.CallExpr); ok && len(call.Args) == 1 && fnIs(calleeOf(&CallSite{Call: call, In: fs}), "diskwriter", "diskTrack", "writeRTP") {
+					if id, ok := unparen(call.Args[0]).(*ast.Ident); ok && info.ObjectOf(id) == pkt {
+						hit = true
+					}
+				}
+				return true
+			})
+			return hit
+		}
+		// every path from the parse on which it succeeded reaches writeRTP(p)
+		parseOK := mkFact(true, "eq", TNil(), &Term{K: 'r', Name: "res0", Pos: um.Lparen})
+		_ = parseOK
+		pos, found := ff.PathSearchPSX(um, 0, func(n ast.Node, _ *State, flag int) (int, bool) {
+			return flag, isWrite(n)
+		}, nil, func(_ int, st *State) bool {
+			// an exit without writeRTP is fine only where the parse failed
+			r := &Term{K: 'r', Name: "res0", Pos: um.Lparen}
+			if st.HasFact(mkFact(false, "eq", TNil(), r)) || st.HasFact(mkFact(false, "eq", r, TNil())) {
+				return false
+			}
+			for _, f := range st.Facts() {
+				if f.Op == "eq" && !f.Pos && f.B != nil && ((f.A.K == 'n' && st.EqualUnder(f.B, r)) || (f.B.K == 'n' && st.EqualUnder(f.A, r))) {
+					return false
+				}
+			}
+			return true
+		})
+		at := fs.Pos()
+		if found && pos.IsValid() {
+			at = pos
+		}
+		c.Check(!found, rule, "packet handed to writeRTP in "+fs.Name, at, "every path after a successful parse calls t.writeRTP(p)",
+			"a packet can leave "+fs.Name+" without going through writeRTP: the keyframe bookkeeping and the flush after every packet are skipped for it (a recovered keyframe start is not recognised, a recovered burst overflows the sample builder)")
 	}
 }
